@@ -211,7 +211,31 @@ def gen_problem(rng):
         # a linear constraint over an EMPTY list of variables (what a model generated by a loop over groups posts for an empty
         # group): 0 <= c, 0 = c or 0 >= c — possibly false, in which case the problem has no solution
         p.props.insert(rng.randint(0, len(p.props)), ([], rng.choice(["affine_leq", "affine_eq", "affine_geq"]), [rng.choice([-1, 0, 0, 1])]))
+    if theme == "int":
+        q = add_view_with_placeholder(rng, p)
+        if q is not p:
+            return q, theme  # (not permuted: the added variable must stay last for add_variable to build it)
     return permute_vars(rng, p), theme
+
+
+def add_view_with_placeholder(rng, p):
+    """one time in eight: a view added the way `add_variable(placeholder, dom_index=k, dom_offset=o)` does it — an extra variable
+    on an EXISTING shared domain (often the first one) plus a trailing singleton placeholder domain that no variable uses"""
+    if rng.random() >= 0.125 or not p.shr:
+        return p
+    k = 0 if rng.random() < 0.6 else rng.randrange(len(p.shr))
+    c = rng.randint(-1, 2)
+    q = nv.Prob(list(p.shr) + [(c, c)], list(p.idx) + [k], list(p.off) + [rng.randint(-2, 2)], p.props)
+    nvars = len(q.idx)
+    if q.props and rng.random() < 0.7:  # let some constraint see the new variable
+        j = rng.randrange(len(q.props))
+        vs, a, ps = q.props[j]
+        if vs and a not in ("no_sub_cycle", "scc", "and", "exactly_true"):
+            vs = list(vs)
+            vs[rng.randrange(len(vs))] = nvars - 1
+            cand = (vs, a, ps)
+            q.props[j] = cand
+    return q
 
 
 def permute_vars(rng, p):
